@@ -14,11 +14,22 @@ Model of operator overload resolution in /repo:
 Modelled pattern language: scalar `Var` (optional constraint list) / `Concrete`; time-series `Var`
 (optional constraint list), `Concrete` leaf, `TS`, `TSS`, `TSL` (fixed size, `0` = any size, or size
 variable with optional constraints), `TSD`, `TSW` (tick window or any-window), un-named `TSB` with
-field names, `TSB[schema var]`, `REF`, `SIGNAL`.  Scalars are the four atoms bool/int/float/str.
+field names, NAMED `TSB` (a bundle term carries an optional name: two bundle types are the same type
+iff name and field list are equal; an un-named pattern ignores the name, a named pattern requires it),
+`TSB[schema var]`, `REF`, `SIGNAL`.  Scalars are the four atoms bool/int/float/str.
 Outside the model: `requires_` predicates, default resolvers, defaults, variadic tails, keyword
 arguments and `**kwargs` packing (a declared collector only contributes its rank penalty), scalar ->
-const promotion, named bundles / bundle inheritance, scalar container patterns, duration windows,
+const promotion, bundle inheritance (`bundle_is_a`), the registry's name space (one name, one field
+list: `TypeRegistry::tsb` throws on a conflicting re-declaration) and the `<name>_deref` re-naming that
+`TypeRegistry::dereference` gives a named bundle with `REF` fields (`derefAll` keeps the name; the only
+consumer, `accepts`, compares structurally and never sees it), scalar container patterns, duration windows,
 the OUTPUT-direction matcher (`expected_output`), size hints, Python-sourced candidates.
+
+Which comparison the code makes where (type_pattern.cpp):
+* identity of the interned schema (`bound == concrete`; here `=` of terms, names included): a whole-time-series
+  variable `~T` that is already bound (`varMatch`);
+* `time_series_schema_equivalent` (here `equiv`: names NOT compared): a `Concrete` leaf (`accepts`), the
+  constraint list of a variable (`allowedT`), a `TSB[~S]` schema variable that is already bound.
 
 `TypeRegistry::ref` never interns `REF[REF[X]]` (it returns `REF[X]`); `mkRef` mirrors that, the driver's
 parser uses it, and `subst` uses it where the code calls `registry.ref`.  The matchers are total on
@@ -33,7 +44,9 @@ abbrev Name := Nat
 /-- interned scalar `ValueTypeMetaData*`: 0 bool, 1 int, 2 float, 3 str -/
 abbrev Sc := Nat
 
-/-! ## concrete schemas (`TSValueTypeMetaData`, interned: structural equality = pointer identity) -/
+/-! ## concrete schemas (`TSValueTypeMetaData`, interned: equality of terms = pointer identity).
+A bundle is nominal: `TypeRegistry::tsb(name, fields)` and `un_named_tsb(fields)` intern DIFFERENT
+schemas for the same field list, and so do two different names. -/
 mutual
 inductive CT where
   | ts (s : Sc)
@@ -41,7 +54,7 @@ inductive CT where
   | tsl (e : CT) (n : Nat)          -- `n = 0`: dynamic size
   | tsd (k : Sc) (v : CT)
   | tsw (s : Sc) (period minp : Nat)
-  | tsb (fs : CFields)               -- un-named bundle
+  | tsb (nm : Option Name) (fs : CFields)   -- `none`: un-named bundle; `some n`: the named bundle `n`
   | ref (t : CT)
   | signal
 deriving DecidableEq, Repr
@@ -72,7 +85,7 @@ inductive TP where
   | tsl (e : TP) (sz : SizeP)
   | tsd (k : SP) (v : TP)
   | tsw (s : SP) (w : Option (Nat × Nat))   -- `none` = `any_window`
-  | tsb (fs : PFields)
+  | tsb (nm : Option Name) (fs : PFields)    -- `named_bundle` / `bundle_name` + `field_names` + children
   | tsbVar (n : Name)                        -- `schema_var`
   | ref (t : TP)
   | signal
@@ -105,8 +118,33 @@ def RMap.bindTs (m : RMap) (n : Name) (c : CT) : RMap := { m with ts := (n, c) :
 def RMap.bindSc (m : RMap) (n : Name) (c : Sc) : RMap := { m with sc := (n, c) :: m.sc }
 def RMap.bindSz (m : RMap) (n : Name) (c : Nat) : RMap := { m with sz := (n, c) :: m.sz }
 
-/-- `*_allowed_by_constraints`: empty list = anything goes -/
+/-- `scalar_allowed_by_constraints` / `size_allowed_by_constraints`: empty list = anything goes,
+    otherwise identity with one of the constraints -/
 def allowed {α : Type} [DecidableEq α] (cs : List α) (c : α) : Bool := cs.isEmpty || decide (c ∈ cs)
+
+mutual
+/-- `time_series_schema_equivalent` (endpoint_schema.cpp l.98): a STRUCTURAL comparison.  For a bundle
+    it compares the field count, the field names and (recursively) the field types - NOT the bundle
+    name: `TSB<A>[x,y]`, `TSB<B>[x,y]` and the un-named `TSB[x,y]` are "equivalent". -/
+def equiv : CT → CT → Bool
+  | .ts a, .ts b => decide (a = b)
+  | .tss a, .tss b => decide (a = b)
+  | .tsl e n, .tsl e' n' => decide (n = n') && equiv e e'
+  | .tsd k v, .tsd k' v' => decide (k = k') && equiv v v'
+  | .tsw s p mn, .tsw s' p' mn' => decide (s = s') && decide (p = p') && decide (mn = mn')
+  | .tsb _ fs, .tsb _ gs => equivFields fs gs
+  | .ref t, .ref t' => equiv t t'
+  | .signal, .signal => true
+  | _, _ => false
+def equivFields : CFields → CFields → Bool
+  | .nil, .nil => true
+  | .cons f t r, .cons g u s => decide (f = g) && equiv t u && equivFields r s
+  | _, _ => false
+end
+
+/-- `ts_allowed_by_constraints` (type_pattern.cpp l.36): empty list = anything goes, otherwise
+    `time_series_schema_equivalent` with one of the constraints (structural, not identity) -/
+def allowedT (cs : List CT) (c : CT) : Bool := cs.isEmpty || cs.any (fun k => equiv k c)
 
 /-! ## REF transparency -/
 
@@ -131,7 +169,7 @@ def derefAll : CT → CT
   | .ref t => derefAll t
   | .tsl e n => .tsl (derefAll e) n
   | .tsd k v => .tsd k (derefAll v)
-  | .tsb fs => .tsb (derefFields fs)
+  | .tsb nm fs => .tsb nm (derefFields fs)
   | .ts s => .ts s
   | .tss s => .tss s
   | .tsw s p m => .tsw s p m
@@ -141,12 +179,13 @@ def derefFields : CFields → CFields
   | .cons f t r => .cons f (derefAll t) (derefFields r)
 end
 
-/-- `graph_wiring_detail::input_accepts_output_schema` (without the named-bundle inheritance arm):
-    a `SIGNAL` input takes anything, otherwise the dereferenced schemas must be equivalent -/
+/-- `graph_wiring_detail::input_accepts_output_schema` (without the `bundle_is_a` inheritance arm):
+    a `SIGNAL` input takes anything, otherwise the dereferenced schemas must be EQUIVALENT
+    (`time_series_schema_equivalent`: bundle names are not compared) -/
 def accepts (input output : CT) : Bool :=
   match input with
   | .signal => true
-  | _ => decide (derefAll input = derefAll output)
+  | _ => equiv (derefAll input) (derefAll output)
 
 /-! ## matching -/
 
@@ -168,11 +207,20 @@ def sizeMatch (p : SizeP) (n : Nat) (m : RMap) : Option RMap :=
     | some b => if b = n ∧ allowed cs n then some m else none
     | none => if allowed cs n then some (m.bindSz v n) else none
 
-/-- the `Var` arm of `ts_pattern_match`, on an already `REF`-stripped schema -/
+/-- the `Var` arm of `ts_pattern_match` (type_pattern.cpp l.336-345), on an already `REF`-stripped
+    schema.  A variable that is already bound compares by IDENTITY of the interned schema
+    (`bound == concrete`): for bundles that includes the name. -/
 def varMatch (n : Name) (cs : List CT) (c : CT) (m : RMap) : Option RMap :=
   match m.findTs n with
-  | some b => if b = c ∧ allowed cs c then some m else none
-  | none => if allowed cs c then some (m.bindTs n c) else none
+  | some b => if b = c ∧ allowedT cs c then some m else none
+  | none => if allowedT cs c then some (m.bindTs n c) else none
+
+/-- the `named_bundle` test of the `TSB` arm: an un-named pattern does not look at the name, a named
+    pattern requires `is_named_tsb()` and the same `bundle_name()` -/
+def nameOk (pn cn : Option Name) : Bool :=
+  match pn with
+  | none => true
+  | some n => decide (cn = some n)
 
 /-- the `TSW` window test: `any_window || (period == fixed_size && min_period == min_size)` -/
 def windowOk (w : Option (Nat × Nat)) (period minp : Nat) : Bool :=
@@ -219,16 +267,18 @@ def inMatch (p : TP) (c : CT) (m : RMap) : Option RMap :=
       | some m1 => if windowOk w period minp then some m1 else none
       | none => none
     | _ => none
-  | .tsb fs =>
+  | .tsb pn fs =>
     match stripRefs c with
-    | .tsb cfs => inMatchFields fs cfs m
+    | .tsb cn cfs => if nameOk pn cn then inMatchFields fs cfs m else none
     | _ => none
   | .tsbVar n =>
+    -- `schema_var`: a re-used schema variable is compared with `time_series_schema_equivalent`
+    -- (type_pattern.cpp l.283-287) - structurally, the bundle NAME is not compared
     match stripRefs c with
-    | .tsb cfs =>
+    | .tsb cn cfs =>
       match m.findTs n with
-      | some b => if b = .tsb cfs then some m else none
-      | none => some (m.bindTs n (.tsb cfs))
+      | some b => if equiv b (.tsb cn cfs) then some m else none
+      | none => some (m.bindTs n (.tsb cn cfs))
     | _ => none
 /-- the field loop of the `TSB` arm: same count, same names in order, children match left to right -/
 def inMatchFields (fs : PFields) (cfs : CFields) (m : RMap) : Option RMap :=
@@ -275,7 +325,7 @@ def subst (p : TP) (m : RMap) : Option CT :=
     match substS s m, w with
     | some a, some (p, mn) => some (.tsw a p mn)
     | _, _ => none
-  | .tsb fs => (substFields fs m).map .tsb
+  | .tsb pn fs => (substFields fs m).map (.tsb pn)   -- `registry.tsb(bundle_name, ..)` / `un_named_tsb(..)`
   | .tsbVar n => m.findTs n
   | .ref t => (subst t m).map mkRef
   | .signal => some .signal
@@ -356,7 +406,7 @@ def collectT (p : TP) (a : RankAcc) (v : Nat) : RankAcc :=
   | .tsl e _ => collectT e a.bump (decay v)
   | .tsd k e => collectT e (collectS k a.bump SCALAR_VAR_RANK) (decay v)
   | .tsbVar n => a.bump.addVar (.ts n) (decay v)
-  | .tsb fs => collectFields fs a.bump (decay v)
+  | .tsb _ fs => collectFields fs a.bump (decay v)
   | .ref t => collectT t a v
 def collectFields (fs : PFields) (a : RankAcc) (v : Nat) : RankAcc :=
   match fs with
@@ -399,7 +449,7 @@ def tsPatternRank (p : TP) : Nat :=
        | .fixed k => if k = 0 then TSL_ANY_SIZE_BONUS else 0)
   | .tsd k v => 1 + scalarPatternRank k + tsPatternRank v
   | .tsw s w => 1 + scalarPatternRank s + (if w.isNone then TSW_ANY_WINDOW_BONUS else 0)
-  | .tsb fs => 1 + tsPatternRankFields fs
+  | .tsb _ fs => 1 + tsPatternRankFields fs
   | .tsbVar _ => LARGE_RANK / 2
   | .ref t => tsPatternRank t
   | .signal => 0
